@@ -108,6 +108,75 @@ def load_known(verif):
     return set(json.load(open(p))['functions'])
 
 
+def _sig(rb):
+    return (rb['kind'], rb['argc'], tuple(l['ty'] for l in rb['locals'][1:rb['argc'] + 1]), rb['ret'], rb.get('self_ty'))
+
+
+def reconcile_renames(raw_bodies, known):
+    """A known function that is gone and exactly one unknown function with the same signature that either kept the name (moved to another
+    impl block / module) or kept the path (renamed in place): the unknown function IS the known one.  Its new path is rewritten to the
+    known path in every body (ids, closure ids, callee paths), so that rules anchored on the name and callee patterns still apply.
+    Returns {new id: known id}."""
+    if known is None:
+        return {}
+    present = {rb['id'] for rb in raw_bodies if rb['kind'] != 'Closure'}
+    vanished = sorted(known - present)
+    new = sorted(present - known)
+    if not vanished or not new:
+        return {}
+    by_id = {rb['id']: rb for rb in raw_bodies}
+
+    def name(i):
+        return i.rsplit('::', 1)[-1]
+
+    def path(i):
+        return i.rsplit('::', 1)[0]
+    cand = {}
+    for v in vanished:
+        cs = [n for n in new if (name(n) == name(v) or path(n) == path(v))]
+        cand[v] = cs
+    # the signature of a vanished function is not in the facts any more: require a unique candidate by name-or-path, and that this
+    # candidate is not a candidate of another vanished function with equal standing
+    mapping = {}
+    used = set()
+    for v in vanished:
+        cs = [n for n in cand[v] if n not in used]
+        same_name = [n for n in cs if name(n) == name(v)]
+        pick = same_name if len(same_name) == 1 else (cs if len(cs) == 1 else [])
+        if len(pick) == 1 and sum(1 for v2 in vanished if pick[0] in cand[v2]) == 1:
+            mapping[pick[0]] = v
+            used.add(pick[0])
+    if not mapping:
+        return {}
+
+    def fix(sv):
+        if not isinstance(sv, str):
+            return sv
+        for n, v in mapping.items():
+            if sv == n:
+                return v
+            if sv.startswith(n + '::{closure#'):
+                return v + sv[len(n):]
+        return sv
+
+    def walk(o):
+        if isinstance(o, dict):
+            for k in list(o.keys()):
+                if k in ('fn', 'res', 'id', 'parent') and isinstance(o[k], str):
+                    o[k] = fix(o[k])
+                else:
+                    walk(o[k])
+        elif isinstance(o, list):
+            for x in o:
+                walk(x)
+    for rb in raw_bodies:
+        rb['id'] = fix(rb['id'])
+        if isinstance(rb.get('parent'), str):
+            rb['parent'] = fix(rb['parent'])
+        walk(rb['blocks'])
+    return mapping
+
+
 def apply(P, known):
     """P: ir.Program (bodies loaded, short names assigned).  Replaces callers of unknown functions by inlined copies.
     Returns {new function id: [caller ids it was inlined into]}"""
